@@ -85,6 +85,8 @@ type vfC09World struct {
 	returned bool
 	panicked string
 	rootGoid string // the goroutine running dispatchConnection on this world's peer connection
+	evCh        chan struct{}
+	hardTimeout bool // the last-resort bound of waitSettled / the hang-up phase was hit (machine starved): no verdict
 	lastBusy string // goroutines of this connection that were neither finished nor parked in a scripted Read at the last settle check
 	// target script
 	dialMode   string // ok | fail | wfail
@@ -163,7 +165,7 @@ func (c *vfC09Peer) Read(p []byte) (int, error) {
 		}
 		if !c.idle {
 			c.idle = true
-			w.cond.Broadcast()
+			w.notify()
 		}
 		w.cond.Wait()
 	}
@@ -180,13 +182,13 @@ func (c *vfC09Peer) Write(p []byte) (int, error) {
 	if c.failWrite != 0 && c.wattempts == c.failWrite {
 		c.failedOnce = true
 		w.eventCount++
-		w.cond.Broadcast()
+		w.notify()
 		return 0, errors.New("scripted write failure (connection reset by peer)")
 	}
 	c.got = append(c.got, p...)
 	c.writes++
 	w.eventCount++
-	w.cond.Broadcast()
+	w.notify()
 	return len(p), nil
 }
 
@@ -197,7 +199,7 @@ func (c *vfC09Peer) Close() error {
 	c.closes++
 	c.closed = true
 	w.eventCount++
-	w.cond.Broadcast()
+	w.notify()
 	return nil
 }
 func (c *vfC09Peer) LocalAddr() net.Addr  { return vfC09Addr{"10.0.0.1:443"} }
@@ -210,7 +212,7 @@ func (c *vfC09Peer) SetReadDeadline(t time.Time) error {
 	w := c.w
 	w.mu.Lock()
 	c.rdl = t
-	w.cond.Broadcast()
+	w.notify()
 	w.mu.Unlock()
 	return nil
 }
@@ -263,7 +265,7 @@ func (c *vfC09Web) Read(p []byte) (int, error) {
 		}
 		if !c.idle {
 			c.idle = true
-			w.cond.Broadcast()
+			w.notify()
 		}
 		w.cond.Wait()
 	}
@@ -374,7 +376,7 @@ func (c *vfC09Web) Write(p []byte) (int, error) {
 		// the second writer while the first is parked: served now, ahead of it
 		defer func() {
 			c.overtaken = true
-			w.cond.Broadcast()
+			w.notify()
 		}()
 	}
 	if c.closed {
@@ -383,7 +385,7 @@ func (c *vfC09Web) Write(p []byte) (int, error) {
 	if c.failWrite && c.writes == 0 {
 		c.writes++
 		w.eventCount++
-		w.cond.Broadcast()
+		w.notify()
 		return 0, errors.New("scripted write failure (connection reset by target)")
 	}
 	if c.writes == 0 {
@@ -396,7 +398,7 @@ func (c *vfC09Web) Write(p []byte) (int, error) {
 		c.pending = append([]byte{}, w.reply...)
 	}
 	w.eventCount++
-	w.cond.Broadcast()
+	w.notify()
 	return len(p), nil
 }
 
@@ -407,7 +409,7 @@ func (c *vfC09Web) Close() error {
 	c.closes++
 	c.closed = true
 	w.eventCount++
-	w.cond.Broadcast()
+	w.notify()
 	return nil
 }
 func (c *vfC09Web) LocalAddr() net.Addr                { return vfC09Addr{"10.0.0.1:40000"} }
@@ -418,7 +420,7 @@ func (c *vfC09Web) SetReadDeadline(t time.Time) error {
 	w := c.w
 	w.mu.Lock()
 	c.rdl = t
-	w.cond.Broadcast()
+	w.notify()
 	w.mu.Unlock()
 	return nil
 }
@@ -433,7 +435,7 @@ func (d *vfC09Dialer) Dial(network, address string) (net.Conn, error) {
 	w.dials++
 	w.dialAddr = network + "!" + address
 	w.eventCount++
-	defer w.cond.Broadcast()
+	defer w.notify()
 	if w.dialMode == "fail" {
 		w.dialErr = true
 		return nil, errors.New("scripted dial failure (connection refused)")
@@ -447,9 +449,19 @@ func (d *vfC09Dialer) Dial(network, address string) (net.Conn, error) {
 	return c, nil
 }
 
+// every event on either connection: wake the parked readers/writers AND the settle waiter
+func (w *vfC09World) notify() {
+	w.cond.Broadcast()
+	select {
+	case w.evCh <- struct{}{}:
+	default:
+	}
+}
+
 func vfC09NewWorld(chunks [][]byte, eof bool, dialMode string, reply []byte, after int, tclose bool) *vfC09World {
 	w := &vfC09World{dialMode: dialMode, reply: reply, after: after, tclose: tclose}
 	w.cond = sync.NewCond(&w.mu)
+	w.evCh = make(chan struct{}, 1)
 	cp := make([][]byte, 0, len(chunks))
 	for _, c := range chunks {
 		if len(c) > 0 {
@@ -472,7 +484,7 @@ func (w *vfC09World) start(sta *State) {
 				n := runtime.Stack(buf, false)
 				w.mu.Lock()
 				w.panicked = fmt.Sprintf("%v | %s", r, strings.ReplaceAll(string(buf[:n]), "\n", " ; "))
-				w.cond.Broadcast()
+				w.notify()
 				w.mu.Unlock()
 			}
 		}()
@@ -480,7 +492,7 @@ func (w *vfC09World) start(sta *State) {
 		w.mu.Lock()
 		w.returned = true
 		w.eventCount++
-		w.cond.Broadcast()
+		w.notify()
 		w.mu.Unlock()
 	}()
 }
@@ -522,30 +534,75 @@ func (w *vfC09World) settled() bool {
 	return p.blocked() && w.web.blocked()
 }
 
-// wait until settled; if the system does not settle within `grace` the state is reported as it is
-// (unsettled=true): e.g. a connection left open with nobody reading from it.  `max` bounds everything.
-func (w *vfC09World) waitSettled(grace, max time.Duration) (unsettled bool) {
-	t0 := time.Now()
-	stop := make(chan struct{})
-	go func() { // the only timer: wakes the waiter so that it can look at the clock
-		tk := time.NewTicker(5 * time.Millisecond)
-		defer tk.Stop()
-		for {
-			select {
-			case <-stop:
-				return
-			case <-tk.C:
-				w.mu.Lock()
-				w.cond.Broadcast()
-				w.mu.Unlock()
+// Is every goroutine of this connection (root = the goroutine running dispatchConnection, plus everything it
+// transitively started) finished or BLOCKED - in a channel operation, a select, a condition variable, a sleep or I/O -
+// in `glances` consecutive looks at runtime.Stack (yielding in between)?  A goroutine that is running, runnable (be it
+// starved by other processes for seconds), in a syscall or queueing for a mutex is "moving": then nothing may be
+// concluded yet.  Returns the moving ones for the log.
+func vfC09FamilyStuck(root string, glances int) (bool, string) {
+	for i := 0; i < glances; i++ {
+		vfC09StackMu.Lock()
+		n := runtime.Stack(vfC09StackBuf, true)
+		for n == len(vfC09StackBuf) {
+			vfC09StackBuf = make([]byte, 2*len(vfC09StackBuf))
+			n = runtime.Stack(vfC09StackBuf, true)
+		}
+		type gor struct{ id, state, parent string }
+		var all []gor
+		for _, g := range strings.Split(string(vfC09StackBuf[:n]), "\n\n") {
+			m := vfC09GoHdr.FindStringSubmatch(g)
+			if m == nil {
+				continue
+			}
+			parent := ""
+			if pm := vfC09GoParent.FindStringSubmatch(g); pm != nil {
+				parent = pm[1]
+			}
+			all = append(all, gor{m[1], m[2], parent})
+		}
+		vfC09StackMu.Unlock()
+		family := map[string]bool{root: true}
+		for changed := true; changed; {
+			changed = false
+			for _, g := range all {
+				if !family[g.id] && family[g.parent] {
+					family[g.id] = true
+					changed = true
+				}
 			}
 		}
-	}()
-	defer close(stop)
+		moving := ""
+		for _, g := range all {
+			if !family[g.id] {
+				continue
+			}
+			switch {
+			case g.state == "sync.Cond.Wait", strings.HasPrefix(g.state, "chan "), strings.HasPrefix(g.state, "select"),
+				g.state == "sleep", g.state == "IO wait", g.state == "sync.WaitGroup.Wait":
+			default:
+				moving += "g" + g.id + "[" + g.state + "] "
+			}
+		}
+		if moving != "" {
+			return false, moving
+		}
+		runtime.Gosched()
+	}
+	return true, ""
+}
+
+// Wait until the scenario has settled.  If it has not after `grace`, it is reported as unsettled (e.g. a connection left
+// open with nobody reading from it) ONLY when nothing can move any more: no goroutine of the connection is running or
+// runnable and no event has happened between two such looks.  Wall-clock time decides nothing: on a starved machine a
+// runnable goroutine may wait for seconds, and then so does this function.  `hard` is a last-resort bound; hitting it
+// is reported as such (HardTimeout) and never taken for a verdict about the code.
+func (w *vfC09World) waitSettled(grace, hard time.Duration) (unsettled bool) {
+	t0 := time.Now()
 	w.mu.Lock()
 	defer w.mu.Unlock()
 	var stableSince time.Time
 	lastEvents := -1
+	stuckAt := -1 // eventCount at the last look that found every goroutine blocked
 	for {
 		if w.settled() {
 			// sessions (server-originated writes) are confirmed by 3 ms without any event: the WebSocket
@@ -562,8 +619,6 @@ func (w *vfC09World) waitSettled(grace, max time.Duration) (unsettled bool) {
 				// connections (e.g. a prefix write handed to a goroutine that has not run yet)
 				root := w.rootGoid
 				w.mu.Unlock()
-				// (the ticker's Broadcast that woke this goroutine also woke the parked readers: they are runnable for a
-				// moment before they park again - poll, yielding, instead of judging the first glance)
 				quiet, busy := false, ""
 				for i := 0; i < 400 && !quiet; i++ {
 					if quiet, busy = vfC09OthersQuiet("", root); !quiet {
@@ -578,15 +633,33 @@ func (w *vfC09World) waitSettled(grace, max time.Duration) (unsettled bool) {
 			} else {
 				return false
 			}
+		} else if time.Since(t0) > grace {
+			ev, root := w.eventCount, w.rootGoid
+			w.mu.Unlock()
+			stuck, moving := vfC09FamilyStuck(root, 3)
+			w.mu.Lock()
+			w.lastBusy = moving
+			if stuck && ev == w.eventCount && !w.settled() {
+				if stuckAt == ev {
+					return true // twice in a row, nothing in between: this is how it stays
+				}
+				stuckAt = ev
+			} else {
+				stuckAt = -1
+			}
 		}
-		el := time.Since(t0)
-		if el > max {
+		if time.Since(t0) > hard {
+			w.hardTimeout = true
 			return true
 		}
-		if el > grace && (w.returned || el > 4*grace) {
-			return true
+		// wait for the next event (every event signals evCh) or a millisecond, whichever comes first; parked readers
+		// are NOT woken by this
+		w.mu.Unlock()
+		select {
+		case <-w.evCh:
+		case <-time.After(time.Millisecond):
 		}
-		w.cond.Wait()
+		w.mu.Lock()
 	}
 }
 
@@ -611,6 +684,7 @@ type vfC09Obs struct {
 	FinRet            bool // dispatchConnection had returned at the end of phase 2
 	PeerWFailed       bool // the scripted write failure was hit
 	Busy              string
+	HardTimeout       bool // a last-resort time bound was hit: the machine was starved, the observation is no verdict
 	TargetSched       string // how the first Write on the target connection was scheduled (ordering window of goWeb)
 }
 
@@ -626,9 +700,10 @@ func vfC09RunScenarioX(sta *State, chunks [][]byte, eof bool, dialMode string, r
 	sta.RedirDialer = &vfC09Dialer{w}
 	w.start(sta)
 	var o vfC09Obs
-	o.Unsettled = w.waitSettled(150*time.Millisecond, 10*time.Second)
+	o.Unsettled = w.waitSettled(150*time.Millisecond, 120*time.Second)
 	w.mu.Lock()
 	o.Busy = w.lastBusy
+	o.HardTimeout = w.hardTimeout
 	o.Ret = w.returned
 	o.Dials = w.dials
 	o.DialAddr = w.dialAddr
@@ -648,24 +723,50 @@ func vfC09RunScenarioX(sta *State, chunks [][]byte, eof bool, dialMode string, r
 	if w.web != nil {
 		w.web.hung = w.web.hung || false
 	}
-	w.cond.Broadcast()
+	w.notify()
 	w.mu.Unlock()
 	if o.Panicked == "" {
 		w.mu.Lock()
 		t0 := time.Now()
 		session := w.dials == 0 && len(w.peer.got) > 0 && !vfC09QuickSession
+		stuckAt := -1
 		for {
 			done := w.peer.closed && (w.web == nil || w.web.closed)
 			// a served session ends with dispatchConnection returning (http.Serve / serveSession come back once
 			// the session is closed): wait for that too, so that anything it does afterwards is observed
-			if (done && (!session || w.returned)) || time.Since(t0) > 80*time.Millisecond {
+			if done && (!session || w.returned) {
+				break
+			}
+			// not there yet: it is final only when no goroutine of the connection can move any more (looked at
+			// twice with no event in between) - never because some amount of wall-clock time has passed
+			if time.Since(t0) > 5*time.Millisecond {
+				ev, root := w.eventCount, w.rootGoid
+				w.mu.Unlock()
+				stuck, _ := vfC09FamilyStuck(root, 3)
+				w.mu.Lock()
+				if stuck && ev == w.eventCount {
+					if stuckAt == ev {
+						o.FinUnsettled = !(w.peer.closed && (w.web == nil || w.web.closed))
+						break
+					}
+					stuckAt = ev
+				} else {
+					stuckAt = -1
+				}
+			}
+			if time.Since(t0) > 60*time.Second {
+				w.hardTimeout = true
 				o.FinUnsettled = !done
 				break
 			}
 			w.mu.Unlock()
-			time.Sleep(200 * time.Microsecond)
+			select {
+			case <-w.evCh:
+			case <-time.After(500 * time.Microsecond):
+			}
 			w.mu.Lock()
 		}
+		o.HardTimeout = w.hardTimeout
 		o.FinPeerClosed = w.peer.closed
 		o.FinPeer = append([]byte{}, w.peer.got...)
 		o.FinDials = w.dials
@@ -683,7 +784,7 @@ func vfC09RunScenarioX(sta *State, chunks [][]byte, eof bool, dialMode string, r
 		if w.web != nil {
 			w.web.closed = true
 		}
-		w.cond.Broadcast()
+		w.notify()
 		w.mu.Unlock()
 	}
 	return o
@@ -707,6 +808,9 @@ func (o vfC09Obs) String() string {
 	}
 	if o.TargetSched != "" {
 		s += " tsched=" + o.TargetSched
+	}
+	if o.HardTimeout {
+		s += " hard=1"
 	}
 	if o.Unsettled && o.Busy != "" {
 		s += " busy=" + strings.ReplaceAll(strings.TrimSpace(o.Busy), " ", ",")
